@@ -112,6 +112,10 @@ def main(argv=None):
         i = argv.index('--tier')
         tier = argv[i + 1]
         del argv[i:i + 2]
+    write = True
+    if '--no-evidence' in argv:
+        argv.remove('--no-evidence')
+        write = False
     if '--self-check' in argv:
         try:
             c = Ctx()
@@ -146,7 +150,7 @@ def main(argv=None):
             return 2
         try:
             ctx = ctx or Ctx()
-            r, _, _ = run_property(p, tier, ctx)
+            r, _, _ = run_property(p, tier, ctx, write=write)
             rc = max(rc, r)
         except AnalysisError as e:
             print(f"ANALYSIS-ERROR property={p} {e}")
